@@ -671,6 +671,11 @@ class Interp:
             st.unknown.append((name, loc))
 
 
+def _opt_elem(ret_ty, gens):
+    m = re.match(r"^core::option::Option<(\w+)>$", ret_ty)
+    return bool(m) and m.group(1) in gens
+
+
 def role_of(body):
     """signature role of a wrapper method (see module docstring)"""
     sig_args = [body.locals[i + 1]["ty"] for i in range(body.arg_count)]
@@ -678,7 +683,8 @@ def role_of(body):
     if not sig_args or "&" not in sig_args[0]:
         return "static"
     cont_args = [i for i, ty in enumerate(sig_args[1:], start=2) if _is_container_ty(ty) and not ty.startswith("&")]
-    elem_args = [i for i, ty in enumerate(sig_args[1:], start=2) if ty == "T"]
+    gens = set(body.raw.get("generics") or ["T"]) | {"T"}
+    elem_args = [i for i, ty in enumerate(sig_args[1:], start=2) if ty in gens]
     if cont_args and _is_container_ty(ret_ty):
         return "attach+detach"
     if cont_args and ret_ty == "()":
@@ -687,7 +693,7 @@ def role_of(body):
         return "detach"
     if elem_args and ret_ty == "()":
         return "push"
-    if re.match(r"^core::option::Option<T>$", ret_ty) and len(sig_args) == 1:
+    if _opt_elem(ret_ty, gens) and len(sig_args) == 1:
         return "pop"
     return "other"
 
@@ -709,13 +715,13 @@ def analyse_method(prog, body, adt):
         if _is_container_ty(ty) and not ty.startswith("&"):
             init.env[i] = seq("N%d" % i)
             cont_args.append(i)
-        elif not ty.startswith("&") and ty in adt.get("generics", ["T"]) or ty == "T":
+        elif not ty.startswith("&") and ty in adt.get("generics", ["T"]) or ty == "T" or ty in (body.raw.get("generics") or []):
             init.env[i] = ("elem", "e%d" % i)
             elem_args.append(i)
         else:
             init.env[i] = None
     ret_cont = _is_container_ty(ret_ty)
-    ret_opt_elem = bool(re.match(r"^core::option::Option<T>$", ret_ty))
+    ret_opt_elem = _opt_elem(ret_ty, set(body.raw.get("generics") or ["T"]) | {"T"})
     if cont_args and ret_cont:
         role = "attach+detach"
     elif cont_args and ret_ty == "()":
